@@ -88,7 +88,28 @@ pub fn run(seed: u64, tier: &str, out: &mut dyn FnMut(String)) {
         let mut r = Rng::for_case(seed, "parse", case);
         let mut toks: Vec<String> = vec![];
         let balanced = r.chance(3, 5);
-        if balanced {
+        if case % 60 == 59 {
+            // deep nesting: a chain of d open lists with tokens on the way down, at the bottom and on the way up
+            let d = *r.pick(&[60u64, 99, 100, 101, 102, 128, 150, 257, 300]);
+            for _ in 0..d {
+                toks.push("(".to_string());
+                if r.chance(1, 2) {
+                    toks.push(gen_int(&mut r).to_string());
+                }
+            }
+            for _ in 0..1 + r.below(3) {
+                let t = gen_token(&mut r, &names);
+                if t != "(" && t != ")" {
+                    toks.push(t);
+                }
+            }
+            for _ in 0..d {
+                toks.push(")".to_string());
+                if r.chance(1, 2) {
+                    toks.push(gen_name(&mut r));
+                }
+            }
+        } else if balanced {
             gen_balanced(&mut r, &names, 4, &mut toks);
         } else {
             for _ in 0..r.below(12) {
@@ -170,6 +191,23 @@ pub fn run_rt(seed: u64, tier: &str, out: &mut dyn FnMut(String)) {
     for case in 0..n {
         let mut r = Rng::for_case(seed, "roundtrip", case);
         let it = match case % 4 {
+            // one tree in 50 is a deep chain (depth 60..300) with items beside every nested list
+            0 if case % 200 == 0 => {
+                let d = *r.pick(&[60u64, 99, 100, 101, 102, 150, 300]);
+                let mut t = rt_item(&mut r, 1, &names, false);
+                for _ in 0..d {
+                    let mut v = vec![];
+                    if r.chance(1, 2) {
+                        v.push(Item::int(gen_int(&mut r)));
+                    }
+                    v.push(t);
+                    if r.chance(1, 2) {
+                        v.push(Item::bool(r.chance(1, 2)));
+                    }
+                    t = Item::list(v);
+                }
+                t
+            }
             0 => rt_item(&mut r, 4, &names, false),
             1 => rt_item(&mut r, 3, &names, true),
             2 => gen_item(&mut r, 3, &names),
